@@ -607,6 +607,25 @@ def run(run: Run):
                                         f'(more than one 128 B grant per connection per change)', desc))
             elif ex > 0:
                 run.add_finding(Finding(F31_KEY, F31_WHAT, dict(desc, excess_bytes=ex // TICK, changes_in_window=k)))
+    # the upload as the TransferManager drives it (TransferManager._upload_file on a fake transport, harness of C04):
+    # every file byte must go through the limiter, also the last partial chunk
+    try:
+        from checks.c04_harness import run_limited_upload
+        for kbps, size in ((1, 6000), (10, 70000), (2, 128 * 37 + 5)):
+            desc = {'kbps': kbps, 'size': size, 'path': 'TransferManager._upload_file'}
+            writes = run_limited_upload(kbps, size, seed=run.seed)
+            deliv = [(round(t * TICK), n) for t, n in writes]
+            run.case({'stack': desc}, kind='stack-manager-upload')
+            tot = sum(n for _, n in deliv)
+            if tot < size:
+                run.add_finding(Finding('stack-bytes', f'manager upload wrote {tot} of {size} bytes', desc))
+            ex = stack_monitor(deliv, [(deliv[0][0] if deliv else 0, kbps * 1024)])
+            if ex > 128 * TICK:
+                run.add_finding(Finding('upload-path-bypasses-limiter', f'TransferManager upload exceeded the window bound by {ex // TICK} B', desc))
+    except BrokenTie:
+        raise
+    except Exception as e:  # the harness could not run the upload at all
+        run.add_broken('stack:manager-upload (checks/c04_harness.run_limited_upload)', f'{type(e).__name__}: {e}')
     for upload in (True, False):
         desc = {'kbps': 0, 'connections': 2, 'size': 50000, 'upload': upload}
         deliv, _ = stack_run(run.rng, 0, 2, 50000, upload)
